@@ -1,11 +1,16 @@
 """Engine H: breadth-first search over API call histories, executed on real objects.
 
-A state is the history reaching it; ``execute(history)`` rebuilds fresh real objects, replays the
-calls, runs the reference model alongside and returns ``(canon, err)`` where ``canon`` is a hashable
-canonical observation (public queries only) and ``err`` describes an oracle failure (or None).
-States with equal ``canon`` are merged (argument per check: equal observations => equal futures
-under the alphabet)."""
+A state is the history reaching it; ``execute(history, parent_key)`` rebuilds fresh real objects,
+replays the calls, runs the reference model alongside and returns ``(canon, err)`` where ``canon`` is a
+hashable canonical observation (public queries only) and ``err`` describes an oracle failure of the
+LAST call (or None).  ``parent_key`` is the canon of ``history[:-1]`` (for failure atomicity).
+States with equal ``canon`` are merged (argument per check: equal observations => equal futures under
+the alphabet).  Levels are expanded on a fork()ed worker pool; the result does not depend on
+scheduling (chunks are merged in order)."""
+import multiprocessing as mp
 import time
+
+_G = {}
 
 
 class HResult:
@@ -20,46 +25,70 @@ class HResult:
         self.outcomes = {}
 
 
+def _expand(chunk):
+    execute, letters_for = _G["execute"], _G["letters_for"]
+    out, n, outcomes = [], 0, {}
+    local = set()
+    for hist, key in chunk:
+        for letter in letters_for(hist):
+            h2 = hist + (letter,)
+            k2, err = execute(h2, key)
+            n += 1
+            c = "violation" if err is not None else ("changed" if k2 != key else "unchanged")
+            outcomes[c] = outcomes.get(c, 0) + 1
+            if err is not None:
+                return dict(violation=dict(err=err, history=list(h2)), n=n, new=out, outcomes=outcomes)
+            if k2 not in local:
+                local.add(k2)
+                out.append((h2, k2))
+    return dict(violation=None, n=n, new=out, outcomes=outcomes)
+
+
 def hbfs(letters, execute, *, max_depth, max_states=5_000_000, max_seconds=3600.0, letters_for=None,
-         classify=None):
+         jobs=1, chunk=64):
     r = HResult()
     t0 = time.time()
-    key0, err = execute(())
+    key0, err = execute((), None)
     if err is not None:
         r.violation = dict(err=err, history=[])
         return r
+    _G["execute"] = execute
+    _G["letters_for"] = letters_for if letters_for is not None else (lambda hist: letters)
     seen = {key0}
-    frontier = [()]
+    frontier = [((), key0)]
     depth = 0
-    while frontier and depth < max_depth:
-        nxt = []
-        for hist in frontier:
-            for letter in (letters if letters_for is None else letters_for(hist)):
-                h2 = hist + (letter,)
-                key, err = execute(h2)
-                r.transitions += 1
-                if classify is not None:
-                    c = classify(key, err)
-                    r.outcomes[c] = r.outcomes.get(c, 0) + 1
-                if err is not None:
-                    r.violation = dict(err=err, history=list(h2))
-                    r.states = len(seen); r.max_depth = depth + 1
-                    return r
-                if key not in seen:
-                    seen.add(key)
-                    nxt.append(h2)
+    pool = mp.get_context("fork").Pool(jobs) if jobs > 1 else None
+    try:
+        while frontier and depth < max_depth:
+            chunks = [frontier[i:i + chunk] for i in range(0, len(frontier), chunk)]
+            results = pool.imap(_expand, chunks) if pool else map(_expand, chunks)
+            nxt = []
+            for res in results:
+                r.transitions += res["n"]
+                for c, k in res["outcomes"].items():
+                    r.outcomes[c] = r.outcomes.get(c, 0) + k
+                if res["violation"] is not None and r.violation is None:
+                    r.violation = res["violation"]
+                for h2, k2 in res["new"]:
+                    if k2 not in seen:
+                        seen.add(k2)
+                        nxt.append((h2, k2))
+            if r.violation is not None:
+                r.states = len(seen); r.max_depth = depth + 1
+                return r
+            depth += 1
+            r.level_sizes.append(len(nxt))
+            if nxt:
+                r.samples = [list(nxt[0][0]), list(nxt[-1][0])]
+            frontier = nxt
             if len(seen) > max_states or time.time() - t0 > max_seconds:
                 r.capped = "states" if len(seen) > max_states else "time"
                 break
-        if r.capped:
-            break
-        depth += 1
-        r.level_sizes.append(len(nxt))
-        if nxt:
-            r.samples = [list(nxt[0]), list(nxt[-1])]
-        frontier = nxt
-    if frontier and depth >= max_depth:
-        r.capped = r.capped or f"depth {max_depth}"
+    finally:
+        if pool:
+            pool.terminate()
+    if frontier and depth >= max_depth and not r.capped:
+        r.capped = f"depth {max_depth}"
     r.states = len(seen)
     r.max_depth = depth
     return r
